@@ -923,6 +923,8 @@ package service
 //@   acquires-level 10
 //@   requires sl != nil && sl.closeCh != nil
 //@   ensures[C12,closed-after-close] closed(sl.closeCh)
+//@   trace[C11,C12,closing-a-handle-takes-nothing-from-the-shared-queue] each * satisfies !evis("recv") && !evis("send")
+//@   trace[C11,C12,closing-a-handle-closes-no-connection] never transport.StreamConn.Close*
 
 //@ func (*virtualPacketConn).ReadFrom
 //@   props C12 C13 C18 C19
@@ -940,6 +942,7 @@ package service
 //@   acquires-level 10
 //@   requires pc != nil && pc.closeCh != nil && !closed(pc.closeCh)
 //@   ensures[C12,closed-after-close] closed(pc.closeCh)
+//@   trace[C11,C12,closing-a-handle-takes-nothing-from-the-shared-queue] each * satisfies !evis("recv") && !evis("send")
 
 // Acquire counts a handle exactly when it hands one out (count == number of handles whose close
 // function has not run): a failed Acquire leaves the count alone.
